@@ -691,8 +691,26 @@ def execute(c, x, arr, rng=None):
         import mystic.tools as mt
         g, err = _call(mt.connected, [tuple(p) for p in x])
         return {'y1': g, 'e1': err, 'y2': None, 'e2': None}
-    t = build(c)
     mk = (lambda v: np.array(v)) if arr else (lambda v: list(v))
+    via = c.get('via')
+    if via:
+        # the decorated function is built with other settings, applied once to an input of the same size, and then
+        # brought to the settings of c through its documented setter: from here on it must behave as c says
+        t = build(dict(c, **via['from']))
+        ch0 = rng.ch if rng is not None else None
+        if rng is not None:
+            rng.ch = tree.Chooser()
+        try:
+            _call(t, mk(x if f != 'reuse' else x[0]))
+        finally:
+            if rng is not None:
+                rng.ch = ch0
+        v = via['value']
+        if via['setter'] == 'type':
+            v = float if v == 'float' else True
+        getattr(t, via['setter'])(tuple(v) if isinstance(v, list) and via['setter'] == 'index' else v)
+    else:
+        t = build(c)
     if f == 'reuse':
         ch = rng.ch
         rng.ch = tree.Chooser()     # the first application takes the default answers (not choice points)
@@ -723,6 +741,13 @@ def execute(c, x, arr, rng=None):
 
 
 def sig_extra(c):
+    d = _sig_extra(c)
+    if c.get('via'):
+        d = dict(d, after_setter=c['via']['setter'])
+    return d
+
+
+def _sig_extra(c):
     f = c['fam']
     if f == 'bounds':
         return {'form': c['form'], 'clip': c['clip'], 'nearest': c['nearest']}
@@ -895,6 +920,21 @@ def configs(thorough):
             for outer in (False, True):
                 for idx in INDEXES:
                     C.append({'fam': fam, 'asc': asc, 'outer': outer, 'index': idx})
+    # settings changed through the decorated function's own setter after it has been used once
+    def _tup(i):
+        return None if i is None else ([i] if isinstance(i, int) else list(i))
+    moves = [(None, 0), (0, None), ([0, 2], -1), (0, [0, 2]), (-1, [0, 9])]
+    for a, b in moves:
+        C.append({'fam': 'discrete', 'samples': [0.0, 1.0, 4.0], 'index': b, 'via': {'from': {'index': a}, 'setter': 'index', 'value': _tup(b)}})
+        C.append({'fam': 'integers', 'ints': 'float', 'index': b, 'via': {'from': {'index': a}, 'setter': 'index', 'value': _tup(b)}})
+        C.append({'fam': 'rounded', 'digits': 0, 'index': b, 'via': {'from': {'index': a}, 'setter': 'index', 'value': _tup(b)}})
+        C.append({'fam': 'precision', 'digits': 1, 'index': b, 'via': {'from': {'index': a}, 'setter': 'index', 'value': _tup(b)}})
+        C.append({'fam': 'sorting', 'asc': True, 'outer': False, 'index': b, 'via': {'from': {'index': a}, 'setter': 'index', 'value': _tup(b)}})
+        C.append({'fam': 'monotonic', 'asc': True, 'outer': False, 'index': b, 'via': {'from': {'index': a}, 'setter': 'index', 'value': _tup(b)}})
+    C.append({'fam': 'discrete', 'samples': [0.0, 1.0, 4.0], 'index': None, 'via': {'from': {'samples': [1.0]}, 'setter': 'samples', 'value': [0.0, 1.0, 4.0]}})
+    C.append({'fam': 'rounded', 'digits': 1, 'index': None, 'via': {'from': {'digits': 0}, 'setter': 'digits', 'value': 1}})
+    C.append({'fam': 'precision', 'digits': 0, 'index': [0, 2], 'via': {'from': {'digits': 1}, 'setter': 'digits', 'value': 0}})
+    C.append({'fam': 'integers', 'ints': 'float', 'index': None, 'via': {'from': {'ints': 'True'}, 'setter': 'type', 'value': 'float'}})
     for idx, tg in [([0], 1.0), ([1, 3], -99.0), ([-1], 0.5), ([0, 9], 4.0), ([1, 3], [10.0, 20.0]),
                     ([0, 2], [1.0, -1.0]), ([0, 9], [10.0, 20.0]), ([0, 1, 2, 3], 0.0),
                     # an out-of-range index listed BEFORE in-range ones: each index keeps its own target
